@@ -126,6 +126,12 @@ def _dec_partial(peer, f):
         got = R.unframe(sock.sent[0][0].send_bytes)
         if got is None or got[2] != R.partial_ack(7):
             bad.append(f"acknowledgement {sock.sent[0][0].send_bytes!r}")
+        elif (got[0], got[1]) != (b"IOS", b"SPA"):
+            # the update came from SPA addressed to IOS: the acknowledgement goes back with the identifiers swapped
+            bad.append(f"acknowledgement framed {got[0]!r} -> {got[1]!r}, the update came from b'SPA' for b'IOS'")
+        dest = sock.sent[0][1]
+        if dest is not None and tuple(dest[:2]) != ("10.0.0.9", 10022):
+            bad.append(f"acknowledgement queued for {dest!r}, the update came from ('10.0.0.9', 10022)")
     return bad
 
 
